@@ -714,7 +714,7 @@ def txn_rule(ctx, prefix):
                         for st in blk["stmts"]:
                             if any(x is e for x in sir.walk(st)):
                                 break
-                            if any(x.get("k") == "mcall" and x["m"] == "append_nested_block_close" for x in sir.walk(st)) and any(x.get("k") == "mcall" and x["m"] == "pop" for x in sir.walk(st)):
+                            if any(x.get("k") == "mcall" and x["m"] == "append_nested_block_close" for x in sir.walk(st)) and any(x.get("k") == "mcall" and x["m"] in ("pop", "drain", "into_iter") and "stack" in sir.expr_str(x["recv"]) for x in sir.walk(st)):
                                 drained = True
                             if any(x.get("k") == "call" and "close" in (sir.call_name(x) or "") and "stack" in sir.expr_str(x) for x in sir.walk(st)):
                                 drained = True
@@ -1429,6 +1429,45 @@ def int_rule(ctx, prefix, writer_only=False):
                             while h.get("k") == "mcall" and h["m"] in ("to_string", "clone") and not h["args"]:
                                 h = sir.strip_ref(h["recv"])
                             digit_writes.append(sir.expr_str(h).lstrip("*"))
+                # the other spelling: the sign is picked into a local by an if-chain over literals and written in front of the digits
+                # (`let sign = if v == 0 && value.is_sign_negative() { "-" } else if has_sign && v >= 0 { "+" } else { "" }`)
+                others = sorted(set(d for d in digit_writes if d != vname))
+                if vname in digit_writes and len(others) == 1 and re.fullmatch(r"\w+", others[0]):
+                    ini = [l_["init"] for l_ in sir.walk(body) if l_.get("k") == "local" and l_["pat"].get("name") == others[0] and l_.get("init") is not None]
+                    chain = []
+                    cur_ = ini[-1] if len(ini) == 1 else None
+                    okc_ = cur_ is not None
+                    while okc_ and cur_ is not None:
+                        if cur_.get("k") == "block" and len(cur_["stmts"]) == 1 and cur_["stmts"][0].get("k") == "expr":
+                            cur_ = cur_["stmts"][0]["e"]
+                            continue
+                        if cur_.get("k") == "if" and cur_["cond"].get("k") != "let":
+                            t_ = cur_["then"]
+                            while t_.get("k") == "block" and len(t_["stmts"]) == 1 and t_["stmts"][0].get("k") == "expr":
+                                t_ = t_["stmts"][0]["e"]
+                            if t_.get("k") != "lit":
+                                okc_ = False
+                                break
+                            chain.append((sorted(sir.expr_str(c).replace(" ", "").replace("*", "") for c in _conj(cur_["cond"])), t_.get("v")))
+                            cur_ = cur_.get("else")
+                            continue
+                        if cur_.get("k") == "lit":
+                            chain.append((None, cur_.get("v")))
+                            cur_ = None
+                            continue
+                        okc_ = False
+                    if okc_ and chain:
+                        nz_c = sorted(["%s==0" % vname, "%s.is_sign_negative()" % val_name])
+                        plus_ok = [c for c, v_ in chain if v_ == "+" and c is not None and len(c) == 2 and hs_name in c and any(x_ in c for x_ in ("%s>=0" % vname, "%s>-1" % vname, "!%s.is_negative()" % vname))]
+                        want = [(nz_c, "-")] if chain and chain[0][1] == "-" else None
+                        shape_ok = (len(chain) == 3 and chain[0] == (nz_c, "-") and len(plus_ok) == 1 and chain[1][1] == "+" and chain[2] == (None, "")
+                                    and digit_writes == [others[0], vname])
+                        if shape_ok:
+                            obs.append(ob("%s.int/%s/writer" % (prefix, kind), True, ctx.where(f), "the sign (`-` for negative zero, `+` iff has_sign and %s >= 0, else nothing) is picked into `%s` and written in front of the digits of `%s`" % (vname, others[0], vname)))
+                            continue
+                        obs.append(ob("%s.int/%s/writer" % (prefix, kind), False, ctx.where(f), "the sign picked into `%s` is %s" % (others[0], chain),
+                                      witness="z-index:16777217 / :nth-child(2n +0) change their value"))
+                        continue
                 if vname not in digit_writes:
                     probs.append("digits are written from `%s`, not from the integer `%s`" % (digit_writes, vname))
                 if any(d != vname for d in digit_writes):
@@ -1526,7 +1565,16 @@ def host_rules(ctx, prefix):
     post = [(i, appended_text(b_)) for i, b_ in loops if call and i > call[0]]
     ok = (len(sets) == 2 and sets[0][1] is True and sets[1][1] is False and bool(call) and sets[0][0] < call[0] < sets[1][0]
           and len(pre) == 1 and pre[0][1] == "\x00{" and len(post) == 1 and post[0][1] == "}" and not early)
-    obs.append(ob("%s.pair/low-priority" % prefix, bool(ok), ctx.where(f), "flag set %s around the body; before it every enclosing at-rule is replayed as %r, after it closed by %r (one each per stack entry), no early exit: %s" % (
+    if not ok and not pre and not post and len(sets) == 2 and sets[0][1] is True and sets[1][1] is False and bool(call) and sets[0][0] < call[0] < sets[1][0] and not early:
+        # no loop over the stack, but the stack is consulted on both sides of the body in some other form (text assembled with
+        # iterator adaptors / `repeat(len)`): a form this rule does not read - not decided; a replay that is simply missing is a violation
+        sides = [("cur_at_rule_stacks" in sir.expr_str(n) and n.get("k") in ("mcall", "field")) and (i < call[0], i > call[0]) for i, n in enumerate(nodes)]
+        before_ = any(s_ and s_[0] for s_ in sides)
+        after_ = any(s_ and s_[1] for s_ in sides)
+        n_raw = sum(1 for n in nodes if n.get("k") == "mcall" and n["m"] == "append_raw")
+        if before_ and after_ and n_raw >= 2:
+            ok = None
+    obs.append(ob("%s.pair/low-priority" % prefix, None if ok is None else bool(ok), ctx.where(f), "flag set %s around the body; before it every enclosing at-rule is replayed as %r, after it closed by %r (one each per stack entry), no early exit: %s" % (
         [v for _i, v in sets], [t for _i, t in pre], [t for _i, t in post], bool(ok))))
     # item + "{" per stack entry and same number of "}"
     wr = [f2 for f2 in sc.fns if f2.name == "wrap_at_rule_output" and f2.body]
